@@ -23,8 +23,12 @@ def main() -> None:
     props = [json.loads(l)["id"] for l in open(os.path.join(ROOT, "properties.jsonl"))]
     checks = []
     na = []
+    import subprocess
+    tracked = set(subprocess.run(["git", "-C", ROOT, "ls-files", "sa/rules"], capture_output=True, text=True).stdout.split())
     for pid in props:
         try:
+            if f"sa/rules/{pid.lower()}.py" not in tracked:
+                raise ModuleNotFoundError  # work in progress: not claimed until committed
             mod = importlib.import_module(f"sa.rules.{pid.lower()}")
         except ModuleNotFoundError:
             na.append({"property_id": pid, "reason": NOT_APPLICABLE.get(pid, PENDING_REASON)})
